@@ -1,5 +1,6 @@
 import Capella.Lemmas.Index
 import Capella.Lemmas.IndexUnique
+import Capella.Lemmas.IndexHref
 
 /-!
 # C03 — UUID and type lookups always agree with the actual model tree
@@ -75,6 +76,17 @@ theorem lookup_absent_fails (l : Loader) (k : String)
 theorem search_is_scan (f : Frag) (hc : Consistent f) (x : String) (n : Nat) :
     (x, n) ∈ f.xtc ↔ ∃ e ∈ f.tree, e.xt = some x ∧ e.nid = n :=
   hc.2 x n
+
+/-- The third index — which placeholder element stands for a fragmented element (`__hrefsources`,
+what upward navigation across a fragment boundary relies on, C06) — is consistent after loading and
+is kept so by attaching a subtree with fresh placeholders and by un-indexing + detaching a subtree. -/
+theorem placeholder_index_consistent :
+    (∀ f f', idcacheRebuild f = .ok f' → HrefConsistent f') ∧
+    (∀ f f' pos seg, HrefConsistent f → (∀ k ∈ scanHrefs seg, k ∉ scanHrefs f.tree) →
+        attach f pos seg = .ok f' → HrefConsistent f') ∧
+    (∀ f f' seg, HrefConsistent f → (scanHrefs f.tree).Nodup → (f.tree.map (·.nid)).Nodup →
+        SegOf seg f.tree → detach f seg = .ok f' → HrefConsistent f') :=
+  ⟨rebuild_hrefConsistent, attach_hrefConsistent, detach_hrefConsistent⟩
 
 /-- What `LinkAccessor.purge_references` did before the repair — removing an element from the tree
 without un-indexing it — does NOT preserve consistency (the purged element stays resolvable). -/
